@@ -293,13 +293,16 @@ func (v *queue_[V]) GetCapacity() uint {
 // Limited
 
 func (v *queue_[V]) AddValue(value V) {
+	verifYield("add.lock", v)
 	v.mutex_.Lock()
 	v.values_.AppendValue(value)
 	v.mutex_.Unlock()
+	verifYield("add.send", v)
 	v.available_ <- true // The queue will block if at capacity.
 }
 
 func (v *queue_[V]) RemoveAll() {
+	verifYield("removeall.lock", v)
 	v.mutex_.Lock()
 	v.available_ = make(chan bool, v.capacity_)
 	v.values_ = List[V](v.GetClass().Notation()).Make()
@@ -309,6 +312,7 @@ func (v *queue_[V]) RemoveAll() {
 // Sequential
 
 func (v *queue_[V]) IsEmpty() bool {
+	verifYield("empty.lock", v)
 	v.mutex_.Lock()
 	var result = len(v.available_) == 0
 	v.mutex_.Unlock()
@@ -316,6 +320,7 @@ func (v *queue_[V]) IsEmpty() bool {
 }
 
 func (v *queue_[V]) GetSize() int {
+	verifYield("size.lock", v)
 	v.mutex_.Lock()
 	var size = len(v.available_)
 	v.mutex_.Unlock()
@@ -323,6 +328,7 @@ func (v *queue_[V]) GetSize() int {
 }
 
 func (v *queue_[V]) AsArray() []V {
+	verifYield("array.lock", v)
 	v.mutex_.Lock()
 	var array = v.values_.AsArray()
 	v.mutex_.Unlock()
@@ -330,6 +336,7 @@ func (v *queue_[V]) AsArray() []V {
 }
 
 func (v *queue_[V]) GetIterator() age.IteratorLike[V] {
+	verifYield("iter.lock", v)
 	v.mutex_.Lock()
 	var iterator = v.values_.GetIterator()
 	v.mutex_.Unlock()
@@ -350,8 +357,10 @@ func (v *queue_[V]) RemoveHead() (V, bool) {
 	var ok bool
 
 	// Remove the head value from the queue if one exists.
+	verifYield("rem.recv", v)
 	_, ok = <-v.available_ // Will block until a value is available.
 	if ok {
+		verifYield("rem.lock", v)
 		v.mutex_.Lock()
 		head = v.values_.RemoveValue(1)
 		v.mutex_.Unlock()
@@ -362,6 +371,7 @@ func (v *queue_[V]) RemoveHead() (V, bool) {
 }
 
 func (v *queue_[V]) CloseQueue() {
+	verifYield("close.lock", v)
 	v.mutex_.Lock()
 	close(v.available_)
 	// No more values can be placed on the queue.
